@@ -115,6 +115,10 @@ fn get_prototype_member_path(member: &MemberExpr, parts: &mut Vec<Ident>) -> boo
         } else if member.obj.is_ident() {
             let last_ident = member.obj.as_ident().unwrap();
             parts.push(last_ident.clone());
+        } else if !(member.obj.is_this() || member.obj.is_lit()) {
+            // `g().concat.call(x)`: the holder of the method is not a static path. It is read after the `this`
+            // argument has been evaluated, which would reorder the effects of the two
+            return false;
         }
     }
     !parts.is_empty()
